@@ -20,7 +20,8 @@ for d in sorted(glob.glob("/verif/seeded/C*-*")):
     name = os.path.basename(d)
     meta = {
         "id": name,
-        "property": agent.get("property", name.split("-")[0]),
+        "property": name.split("-")[0],
+        "round": 2 if "-r2-" in name else 1,
         "written_by": "independent sub-agent that was given only the text of the property and a scratch worktree",
         "summary": agent.get("summary"),
         "needs_to_manifest": agent.get("needs"),
